@@ -1,7 +1,7 @@
 (* C17 property theorems.  Statements + exact + Print Assumptions only. *)
 From ZV.Common Require Import Base.
 From ZV.C17 Require Import Spec Model ProofsSpec ProofsPage ProofsLinks ProofsLru ProofsRefine ProofsShard ProofsStamp ProofsStale ProofsTop.
-From ZV.C17 Require Import ModelInval ProofsInval ProofsFresh ModelBlob ProofsBlob.
+From ZV.C17 Require Import ModelInval ProofsInval ProofsFresh ModelBlob ProofsBlob ModelRoute ProofsRoute.
 Open Scope N_scope.
 
 (* ---- S: the recency-list LRU map never exceeds its capacity, for every history ---- *)
@@ -394,3 +394,114 @@ Check shared_cache_reads_stay_fresh :
   0 < psize (b_cache St s) -> stale_ok (b_cache St s) D -> bops_ok (files (b_cache St s)) ops ->
   cb_fresh St i_put i_get i_remove i_size i_contains i_len s D ops.
 Print Assumptions shared_cache_reads_stay_fresh.
+
+(* ====================================================================================================== *)
+(* extension: ConcurrentLruMap with RoundRobin / ThreadAffinity routing                                   *)
+(* ====================================================================================================== *)
+
+(* ---- whatever shard select_shard picks for each operation: seen from shard j, the history is the history of one
+        LruMap on the operations that were sent to j (and the clears) ---- *)
+Theorem routed_per_shard : forall n j rops sh,
+  fst (g_run sh n rops) j = fst (m_run (sh j) (gsub j rops)) /\
+  gpick j rops (snd (g_run sh n rops)) = snd (m_run (sh j) (gsub j rops)).
+Proof. exact g_per_shard_proof. Qed.
+Check routed_per_shard : forall n j rops sh,
+  fst (g_run sh n rops) j = fst (m_run (sh j) (gsub j rops)) /\
+  gpick j rops (snd (g_run sh n rops)) = snd (m_run (sh j) (gsub j rops)).
+Print Assumptions routed_per_shard.
+
+(* ---- RoundRobin (shard = global counter & mask, one tick per get/put/remove/contains_key): per shard ---- *)
+Theorem rr_per_shard : forall mask sh ctr n ops j,
+  fst (fst (rr_run mask sh ctr n ops)) j = fst (m_run (sh j) (gsub j (rr_route mask ctr ops))) /\
+  gpick j (rr_route mask ctr ops) (snd (rr_run mask sh ctr n ops)) = snd (m_run (sh j) (gsub j (rr_route mask ctr ops))).
+Proof. exact rr_per_shard_proof. Qed.
+Check rr_per_shard : forall mask sh ctr n ops j,
+  fst (fst (rr_run mask sh ctr n ops)) j = fst (m_run (sh j) (gsub j (rr_route mask ctr ops))) /\
+  gpick j (rr_route mask ctr ops) (snd (rr_run mask sh ctr n ops)) = snd (m_run (sh j) (gsub j (rr_route mask ctr ops))).
+Print Assumptions rr_per_shard.
+Theorem rr_shard_is_lru : forall mask cp ctr n ops j,
+  1 <= cp -> cp < INVALID ->
+  gpick j (rr_route mask ctr ops) (snd (rr_run mask (fun _ => lru_new cp) ctr n ops)) =
+    snd (s_run cp [] (gsub j (rr_route mask ctr ops))).
+Proof. exact rr_shard_is_lru_proof. Qed.
+Check rr_shard_is_lru : forall mask cp ctr n ops j,
+  1 <= cp -> cp < INVALID ->
+  gpick j (rr_route mask ctr ops) (snd (rr_run mask (fun _ => lru_new cp) ctr n ops)) =
+    snd (s_run cp [] (gsub j (rr_route mask ctr ops))).
+Print Assumptions rr_shard_is_lru.
+Example rr_shard_is_lru_nontrivial :
+  let ops := [Put 1 10; Put 2 20; Put 3 30; Get 1; Put 4 40; Get 3] in
+  rr_route 1 0 ops = [(0, Put 1 10); (1, Put 2 20); (0, Put 3 30); (1, Get 1); (0, Put 4 40); (1, Get 3)] /\
+  gpick 0 (rr_route 1 0 ops) (snd (rr_run 1 (fun _ => lru_new 2) 0 2 ops)) =
+    [(RPut None, []); (RPut None, []); (RPut None, [(1, 10)])].
+Proof. split; vm_compute; reflexivity. Qed.
+(* with one shard the round-robin map is the LRU map of the property *)
+Theorem rr_one_shard_is_lru : forall cp ctr ops,
+  1 <= cp -> cp < INVALID ->
+  snd (rr_run 0 (fun _ => lru_new cp) ctr 1 ops) = snd (s_run cp [] ops).
+Proof. exact rr_one_shard_is_lru_proof. Qed.
+Check rr_one_shard_is_lru : forall cp ctr ops,
+  1 <= cp -> cp < INVALID ->
+  snd (rr_run 0 (fun _ => lru_new cp) ctr 1 ops) = snd (s_run cp [] ops).
+Print Assumptions rr_one_shard_is_lru.
+(* with more than one shard it is not (finding concurrent_round_robin_routing): the get looks in another shard than the put *)
+Theorem rr_get_after_put_refuted : exists mask cp n k v,
+  1 <= cp /\ snd (rr_run mask (fun _ => lru_new cp) 0 n [Put k v; Get k]) = [(RPut None, []); (RGet None, [])].
+Proof. exists 3, 2, 4%nat, 13, 102. split; [lia|vm_compute; reflexivity]. Qed.
+Check rr_get_after_put_refuted : exists mask cp n k v,
+  1 <= cp /\ snd (rr_run mask (fun _ => lru_new cp) 0 n [Put k v; Get k]) = [(RPut None, []); (RGet None, [])].
+Print Assumptions rr_get_after_put_refuted.
+
+(* ---- ThreadAffinity (shard = hash(thread id) & mask, for any hash th): per shard ---- *)
+Theorem ta_per_shard : forall th mask sh n tops j,
+  fst (ta_run th mask sh n tops) j = fst (m_run (sh j) (gsub j (ta_route th mask tops))) /\
+  gpick j (ta_route th mask tops) (snd (ta_run th mask sh n tops)) = snd (m_run (sh j) (gsub j (ta_route th mask tops))).
+Proof. exact ta_per_shard_proof. Qed.
+Check ta_per_shard : forall th mask sh n tops j,
+  fst (ta_run th mask sh n tops) j = fst (m_run (sh j) (gsub j (ta_route th mask tops))) /\
+  gpick j (ta_route th mask tops) (snd (ta_run th mask sh n tops)) = snd (m_run (sh j) (gsub j (ta_route th mask tops))).
+Print Assumptions ta_per_shard.
+Theorem ta_shard_is_lru : forall th mask cp n tops j,
+  1 <= cp -> cp < INVALID ->
+  gpick j (ta_route th mask tops) (snd (ta_run th mask (fun _ => lru_new cp) n tops)) =
+    snd (s_run cp [] (gsub j (ta_route th mask tops))).
+Proof. exact ta_shard_is_lru_proof. Qed.
+Check ta_shard_is_lru : forall th mask cp n tops j,
+  1 <= cp -> cp < INVALID ->
+  gpick j (ta_route th mask tops) (snd (ta_run th mask (fun _ => lru_new cp) n tops)) =
+    snd (s_run cp [] (gsub j (ta_route th mask tops))).
+Print Assumptions ta_shard_is_lru.
+(* what one thread does by itself is an LRU map of the per-shard capacity *)
+Theorem ta_one_thread_is_lru : forall th mask cp n t tops,
+  1 <= cp -> cp < INVALID -> Forall (fun r => fst r = t) tops ->
+  gpick (ta_shard th mask t) (ta_route th mask tops) (snd (ta_run th mask (fun _ => lru_new cp) n tops)) =
+    snd (s_run cp [] (filter not_len (map snd tops))).
+Proof. exact ta_one_thread_is_lru_proof. Qed.
+Check ta_one_thread_is_lru : forall th mask cp n t tops,
+  1 <= cp -> cp < INVALID -> Forall (fun r => fst r = t) tops ->
+  gpick (ta_shard th mask t) (ta_route th mask tops) (snd (ta_run th mask (fun _ => lru_new cp) n tops)) =
+    snd (s_run cp [] (filter not_len (map snd tops))).
+Print Assumptions ta_one_thread_is_lru.
+Example ta_one_thread_nontrivial :
+  let tops := [(5, Put 1 10); (5, Put 2 20); (5, Put 3 30); (5, Get 1)] in
+  Forall (fun r => fst r = 5) tops /\
+  snd (ta_run (fun t => t) 3 (fun _ => lru_new 2) 4 tops) =
+    [(RPut None, []); (RPut None, []); (RPut None, [(1, 10)]); (RGet None, [])].
+Proof. split; [repeat constructor|vm_compute; reflexivity]. Qed.
+(* a value put by one thread is invisible to a thread that hashes to another shard (finding concurrent_thread_affinity_routing) *)
+Theorem ta_cross_thread_get_refuted : exists (th : N -> N) mask cp n k v,
+  1 <= cp /\ snd (ta_run th mask (fun _ => lru_new cp) n [(0, Put k v); (1, Get k)]) = [(RPut None, []); (RGet None, [])].
+Proof. exists (fun t => t), 3, 4, 4%nat, 7, 70. split; [lia|vm_compute; reflexivity]. Qed.
+Check ta_cross_thread_get_refuted : exists (th : N -> N) mask cp n k v,
+  1 <= cp /\ snd (ta_run th mask (fun _ => lru_new cp) n [(0, Put k v); (1, Get k)]) = [(RPut None, []); (RGet None, [])].
+Print Assumptions ta_cross_thread_get_refuted.
+
+(* ---- key-hash routing is the same dispatch with the shard taken from the key ---- *)
+Theorem hash_routing_is_routed : forall ops c n,
+  shard (fst (c_run c n ops)) = fst (g_run (shard c) n (map (fun o => (match o with Get k | Put k _ | Remove k | Contains k => sel c k | _ => 0 end, o)) ops)) /\
+  snd (c_run c n ops) = snd (g_run (shard c) n (map (fun o => (match o with Get k | Put k _ | Remove k | Contains k => sel c k | _ => 0 end, o)) ops)).
+Proof. exact hash_run_routed. Qed.
+Check hash_routing_is_routed : forall ops c n,
+  shard (fst (c_run c n ops)) = fst (g_run (shard c) n (map (fun o => (match o with Get k | Put k _ | Remove k | Contains k => sel c k | _ => 0 end, o)) ops)) /\
+  snd (c_run c n ops) = snd (g_run (shard c) n (map (fun o => (match o with Get k | Put k _ | Remove k | Contains k => sel c k | _ => 0 end, o)) ops)).
+Print Assumptions hash_routing_is_routed.
